@@ -760,6 +760,53 @@ that moment), closed, then read back *through the same object*. -/
 theorem obj_close_erases (o : Obj) :
     o.close = { path := o.path, isText := o.isText, file := none, info := .empty } := rfl
 
+/-- **obj_reads**: in whatever state an object is — not open, or open in any mode at any position, with anything
+    cached — its whole-file readers answer from the path's current bytes: `content()` all of them, `firstBytes(n)`
+    the first `n`, `text()` the text of a fresh `TextFile`; `size()` is their number for an open object and for an
+    object with nothing cached; `lines()` of an object that is not open are the lines.
+    (What is left out: `size()` of an object that is not open and cached a size earlier — known finding
+    stale-size-closed-object — and `lines()`/`read()` of an open object, which continue from its position.) -/
+theorem obj_reads (d : Disk) (o : Obj) (c : Bytes) (h : d o.path = some c) :
+    (c.length < 2147483648 → (o.content d).1 = c) ∧ (∀ n, (o.firstBytes d n).1 = c.take n) ∧
+    (c.length < 2147483648 → (o.text d).1 = text c) ∧
+    ((o.file.isSome ∨ o.info = .empty) → (o.size d).1 = c.length) ∧
+    (o.file = none → Spec.NulFree c → (o.lines d).1 = Spec.lines c) := by
+  obtain ⟨p, t, f, info⟩ := o
+  simp only at h
+  have rb := read_back d p c h
+  cases f with
+  | some hd =>
+    refine ⟨fun hl => ?_, fun n => ?_, fun _ => ?_, fun _ => ?_, fun hn => by simp at hn⟩
+    · simpa [Obj.content] using rb.1 hl
+    · simpa [Obj.firstBytes] using rb.2.2.1 n
+    · simpa [Obj.text] using rb.2.2.2.2
+    · simp [Obj.size, statFetch, h, Cache.val]
+  | none =>
+    have hsz : Obj.size d { path := p, isText := t, file := none, info := .empty }
+        = ((c.length : Int), { path := p, isText := t, file := none, info := .size c.length }) := by
+      simp [Obj.size, Obj.ensureInfo, statFetch, h, Cache.val]
+    have hfb : ∀ (info : Cache) (n : Nat),
+        (Obj.firstBytes d { path := p, isText := t, file := none, info := info } n).1 = c.take n := by
+      intro info n
+      simp [Obj.firstBytes, Obj.lazyOpen, openH_read d p false c h, hread, smRead, fread]
+    refine ⟨fun _ => ?_, fun n => hfb info n, fun hlen => ?_, fun hc => ?_, fun _ hz => ?_⟩
+    · simp only [Obj.content, hsz, Int.toNat_natCast]
+      rw [hfb]; exact List.take_length
+    · have hand : sizeAnd (c.length : Int) = c.length &&& sizeMask := by
+        unfold sizeAnd
+        have : ((c.length : Int) % 18446744073709551616).toNat = c.length := by omega
+        rw [this]
+      simp only [Obj.text, hsz]
+      simp [Obj.lazyOpen, openH_read d p true c h, hand, text]
+    · rcases hc with hc | hc
+      · simp at hc
+      · simp only at hc
+        subst hc
+        rw [hsz]
+    · have := lines_spec readLineChunk (by decide) c hz
+      unfold lines at this
+      simp [Obj.lines, Obj.lazyOpen, openH_read d p true c h, this]
+
 /-- **obj_after_close**: after `close()`, every object — whatever it cached, wherever its handle stood — answers
     from the path's current bytes: `size()` is their number, `content()` all of them, `firstBytes(n)` the first
     `n`, `lines()` and `text()` those of a fresh `TextFile` -/
@@ -768,29 +815,14 @@ theorem obj_after_close (d : Disk) (o : Obj) (c : Bytes) (h : d o.path = some c)
     (∀ n, (o.close.firstBytes d n).1 = c.take n) ∧
     (Spec.NulFree c → (o.close.lines d).1 = Spec.lines c) ∧
     (c.length < 2147483648 → (o.close.text d).1 = text c) := by
-  rw [obj_close_erases]
-  have hsz : Obj.size d { path := o.path, isText := o.isText, file := none, info := .empty }
-      = ((c.length : Int), { path := o.path, isText := o.isText, file := none, info := .size c.length }) := by
-    simp [Obj.size, Obj.ensureInfo, statFetch, h]
-  have hfb : ∀ (info : Cache) (n : Nat),
-      (Obj.firstBytes d { path := o.path, isText := o.isText, file := none, info := info } n).1 = c.take n := by
-    intro info n
-    simp [Obj.firstBytes, Obj.lazyOpen, openH_read d o.path false c h, hread, smRead, fread]
-  refine ⟨by rw [hsz], ?_, fun n => hfb .empty n, ?_, ?_⟩
-  · intro _
-    simp only [Obj.content, hsz, Int.toNat_natCast]
-    rw [hfb]; exact List.take_length
-  · intro hz
-    have := lines_spec readLineChunk (by decide) c hz
-    unfold lines at this
-    simp [Obj.lines, Obj.lazyOpen, openH_read d o.path true c h, this]
-  · intro hlen
-    have hand : sizeAnd (c.length : Int) = c.length &&& sizeMask := by
-      unfold sizeAnd
-      have : ((c.length : Int) % 18446744073709551616).toNat = c.length := by omega
-      rw [this]
-    simp only [Obj.text, hsz]
-    simp [Obj.lazyOpen, openH_read d o.path true c h, hand, text]
+  have r := obj_reads d o.close c h
+  exact ⟨r.2.2.2.1 (Or.inr rfl), r.1, r.2.1, r.2.2.2.2 rfl, r.2.2.1⟩
+
+/-- `open()` on an object that is already open closes it first: the same as `close()` followed by `open()` — the old
+    handle is not leaked, so nothing written through it can stay behind (repair a48095a) -/
+theorem obj_open_closes (d : Disk) (o : Obj) (m : OpenMode) (h : o.file.isSome = true) :
+    o.open d m = o.close.open d m := by
+  simp [Obj.open, h, Obj.close]
 
 /-- the operations of a history on one open object: writes and stat-backed queries -/
 inductive QOp where
@@ -831,10 +863,9 @@ theorem obj_history (ops : List QOp) (d : Disk) (o : Obj) (hd : Handle) (h : o.f
       have := ih (fwrite d hd bs).2.1 { o with file := some (fwrite d hd bs).2.2 } (fwrite d hd bs).2.2 rfl
       simpa [writesOf, writeAll] using this
     | qsize =>
-      have := ih d (o.size d).2 hd (by simp [Obj.size, Obj.ensureInfo]; split <;> simp [h])
-      have hp : (o.size d).2.path = o.path ∧ (o.size d).2.isText = o.isText := by
-        simp [Obj.size, Obj.ensureInfo]; split <;> simp
-      simpa [runQ, writesOf, hp.1, hp.2] using this
+      have hs : (o.size d).2 = { o with info := statFetch d o.path } := by simp [Obj.size, h]
+      have := ih d (o.size d).2 hd (by rw [hs]; exact h)
+      simpa [runQ, writesOf, hs] using this
     | qexists =>
       have := ih d (o.exists d).2 hd (by simp [Obj.exists, h])
       simpa [runQ, writesOf, Obj.exists] using this
@@ -849,45 +880,62 @@ theorem obj_history (ops : List QOp) (d : Disk) (o : Obj) (hd : Handle) (h : o.f
         simp [Obj.touch, Obj.ensureInfo]; split <;> simp
       simpa [runQ, writesOf, hp.1, hp.2] using this
 
+/-- the state after `open(m)` and any writes and queries: the path holds the old bytes (append only) followed by
+    everything written, and the object is still open on that path -/
+theorem obj_write_state (d : Disk) (p : Nat) (t : Bool) (m : OpenMode) (hm : m = .write ∨ m = .append)
+    (ops : List QOp) :
+    let o1 := (Obj.new p t).open d m
+    let r := ops.foldl runQ (o1.2.1, o1.2.2)
+    r.1 p = some ((if m = .append then (d p).getD [] else []) ++ (writesOf ops).flatten) ∧ r.2.path = p ∧
+    r.2.file.isSome = true := by
+  intro o1 r
+  rcases hm with rfl | rfl
+  · have ho : o1 = (true, d.set p (some []),
+        { path := p, isText := t, file := some { path := p, isText := t, mode := .write, sm := smWrite, all := [], rs := ⟨[], false⟩, pos := 0 }, info := .empty }) := by
+      simp [o1, Obj.open, Obj.new, openH_write]
+    have hh := obj_history ops o1.2.1 o1.2.2 _ (by rw [ho])
+    have hst := (runTx_store d p (.session t .write (writesOf ops))).1
+    simp only [runTx, openH_write, Spec.store] at hst
+    refine ⟨?_, ?_, ?_⟩
+    · have : r.1 = _ := hh.1
+      rw [this, ho]
+      simpa using hst
+    · have : r.2.path = _ := hh.2.2.1
+      simp [this, ho]
+    · have : r.2.file = _ := hh.2.1
+      rw [this]; rfl
+  · obtain ⟨h, d', hop, hpath, hsm, hd', -⟩ := openH_append d p t
+    have ho : o1 = (true, d', { path := p, isText := t, file := some h, info := .empty }) := by
+      simp [o1, Obj.open, Obj.new, hop]
+    have hh := obj_history ops o1.2.1 o1.2.2 h (by rw [ho])
+    have hw := (writeAll_append (writesOf ops) d' h _ (by rw [hsm]; rfl) (by rw [hsm]; rfl) (by rw [hpath]; exact hd')).1
+    rw [hpath] at hw
+    refine ⟨?_, ?_, ?_⟩
+    · have : r.1 = _ := hh.1
+      rw [this, ho]
+      simpa using hw
+    · have : r.2.path = _ := hh.2.2.1
+      simp [this, ho]
+    · have : r.2.file = _ := hh.2.1
+      rw [this]; rfl
+
 /-- **obj_write_query_close** (the clause a cached `stat` could break): one object opened for WRITE or APPEND, any
-    sequence of writes and stat-backed queries, `close()`; then `size()` of the same object is the number of
-    bytes the file now holds — what was there before for APPEND, nothing for WRITE, then everything written —
-    and `content()` is exactly those bytes: a query made while the file was open poisons nothing -/
+    sequence of writes and stat-backed queries; then — **while it is still open** and again after `close()` —
+    `size()` of the same object is the number of bytes the file now holds (what was there before for APPEND,
+    nothing for WRITE, then everything written) and `content()` is exactly those bytes: neither a query made
+    while the file was open nor the object being open for writing spoils the answer -/
 theorem obj_write_query_close (d : Disk) (p : Nat) (t : Bool) (m : OpenMode) (hm : m = .write ∨ m = .append)
     (ops : List QOp) :
     let o1 := (Obj.new p t).open d m
     let r := ops.foldl runQ (o1.2.1, o1.2.2)
     let c := (if m = .append then (d p).getD [] else []) ++ (writesOf ops).flatten
-    (r.2.close.size r.1).1 = c.length ∧ (c.length < 2147483648 → (r.2.close.content r.1).1 = c) := by
+    ((r.2.size r.1).1 = c.length ∧ (c.length < 2147483648 → (r.2.content r.1).1 = c)) ∧
+    ((r.2.close.size r.1).1 = c.length ∧ (c.length < 2147483648 → (r.2.close.content r.1).1 = c)) := by
   intro o1 r c
-  have key : r.1 p = some c ∧ r.2.path = p := by
-    rcases hm with rfl | rfl
-    · have ho : o1 = (true, d.set p (some []),
-          { path := p, isText := t, file := some { path := p, isText := t, mode := .write, sm := smWrite, all := [], rs := ⟨[], false⟩, pos := 0 }, info := .empty }) := by
-        simp [o1, Obj.open, Obj.new, openH_write]
-      have hh := obj_history ops o1.2.1 o1.2.2 _ (by rw [ho])
-      have hst := (runTx_store d p (.session t .write (writesOf ops))).1
-      simp only [runTx, openH_write, Spec.store] at hst
-      refine ⟨?_, ?_⟩
-      · have : r.1 = _ := hh.1
-        rw [this, ho]
-        simpa [c] using hst
-      · have : r.2.path = _ := hh.2.2.1
-        simp [this, ho]
-    · obtain ⟨h, d', hop, hpath, hsm, hd', -⟩ := openH_append d p t
-      have ho : o1 = (true, d', { path := p, isText := t, file := some h, info := .empty }) := by
-        simp [o1, Obj.open, Obj.new, hop]
-      have hh := obj_history ops o1.2.1 o1.2.2 h (by rw [ho])
-      have hw := (writeAll_append (writesOf ops) d' h _ (by rw [hsm]; rfl) (by rw [hsm]; rfl) (by rw [hpath]; exact hd')).1
-      rw [hpath] at hw
-      refine ⟨?_, ?_⟩
-      · have : r.1 = _ := hh.1
-        rw [this, ho]
-        simpa [c] using hw
-      · have : r.2.path = _ := hh.2.2.1
-        simp [this, ho]
-  have := obj_after_close r.1 r.2 c (by rw [key.2]; exact key.1)
-  exact ⟨this.1, this.2.1⟩
+  have key := obj_write_state d p t m hm ops
+  have r1 := obj_reads r.1 r.2 c (by rw [key.2.1]; exact key.1)
+  have r2 := obj_after_close r.1 r.2 c (by rw [key.2.1]; exact key.1)
+  exact ⟨⟨r1.2.2.2.1 (Or.inl key.2.2), r1.1⟩, ⟨r2.1, r2.2.1⟩⟩
 
 /-- `TextFile::write/put/operator<<` (`m = WRITE`) and `append` (`m = APPEND`) on an object that was never opened open
     it in that mode and write: exactly `open(m)` followed by a write -/
@@ -917,11 +965,11 @@ theorem obj_lazy_write_query_close (d : Disk) (p : Nat) (m : OpenMode) (hm : m =
      let c := bs ++ (writesOf ops).flatten
      (r.2.close.size r.1).1 = c.length ∧ (c.length < 2147483648 → (r.2.close.content r.1).1 = c)) := by
   constructor
-  · have := obj_write_query_close d p true m hm (.write bs :: ops)
+  · have := (obj_write_query_close d p true m hm (.write bs :: ops)).2
     simp only [List.foldl_cons, writesOf, List.flatten_cons, ← List.append_assoc] at this
     rw [twrite_lazy d p m hm bs]
     exact this
-  · have := obj_write_query_close d p false .write (Or.inl rfl) (.write bs :: ops)
+  · have := (obj_write_query_close d p false .write (Or.inl rfl) (.write bs :: ops)).2
     simp only [List.foldl_cons, writesOf, List.flatten_cons, if_neg (by decide : ¬ OpenMode.write = OpenMode.append),
       List.nil_append] at this
     rw [put_lazy d p bs]
